@@ -1002,10 +1002,10 @@ class BaseProperty(base.BaseObject):
 
         :returns: Cloned odml tree to the root of the current document.
         """
-        export = self
-        if export.parent:
+        if self.parent:
             # Section.export_leaf will take care of the full export and
             # include the current Property.
-            export = export.parent.export_leaf()
+            return self.parent.export_leaf()
 
-        return export
+        # A Property without a parent is exported as a copy as well.
+        return self.clone(keep_id=True)
